@@ -502,12 +502,21 @@ class Status:
         fileData = dict(tuple([el.split('=', 1) for el in fileData if el.find('=') != -1]))
 
         # VV: here we are reversing the encodings we performed in self.writeToStream
+        error_description = None
         if 'error-description' in fileData:
-            fileData['error-description'] = fileData['error-description'].encode('utf-8').decode('unicode_escape')
+            error_description = fileData['error-description'].encode('utf-8').decode('unicode_escape')
+            fileData['error-description'] = error_description
 
         # FIXME: StageWeights need to be written to file??
         # Or set by StatusMonitor on restart??
-        return Status(filename, fileData, ast.literal_eval(fileData['stages']))
+        status = Status(filename, fileData, ast.literal_eval(fileData['stages']))
+
+        if error_description is not None:
+            # VV: Status.__init__() strips every value. The error description is free text (e.g. a traceback
+            # which ends with a new line) that writeToStream() escaped: read it back exactly as it was set
+            status.data['error-description'] = error_description
+
+        return status
 
     def __init__(self, filename, data, stages):
 
